@@ -39,6 +39,13 @@ theorem clear_conserves (dr : Bool) (hc : c.lock n) : C03.Conserves c (c.const [
 theorem dropVec_conserves (dr : Bool) (hc : c.lock n) : C03.Conserves c (c.const []) (Gen.dropVec dr c) := by
   rw [Gen.dropVec_eq dr hc]; exact C03.dropVec dr c
 
+/-- `retain` / `retain_mut` as extracted, with any answers, any panicking call and any writes of the callback -/
+theorem retain_conserves (dr mut_ : Bool) (keep : Nat → Bool) (boom : Option Nat) (touch : Nat → Nat → Option (Nat × Nat))
+    (hc : c.lock n) :
+    ((Gen.retain dr mut_ c keep boom touch).st.flat ++ C03.held (Gen.retain dr mut_ c keep boom touch) ++
+      (Gen.retain dr mut_ c keep boom touch).ev.drops).Perm (c.flat ++ (Gen.retain dr mut_ c keep boom touch).made) := by
+  rw [Gen.retain_eq_w dr mut_ keep boom touch hc]; exact C03.retain dr c keep boom touch
+
 /-! ## C08: the struct's own destructor -/
 
 theorem truncate_dropT (dr : Bool) (k : Nat) (hc : c.lock n) :
